@@ -28,6 +28,14 @@ def signed_v2(rng, ciphertext, length_field=None, marker=b"\x5a\x5a"):
     return body + hashlib.md5(body + simdev.SIGN_KEY).digest()
 
 
+def signed_short(rng, total, length_field=None):
+    """a correctly SIGNED V2 packet of any total length >= 22 (6 header bytes + signature), e.g. shorter than the
+    40-byte header: marker, type, length field (= total unless forced), random rest, MD5 over all of it"""
+    lf = total if length_field is None else length_field
+    body = b"\x5a\x5a\x01\x11" + (lf & 0xFFFF).to_bytes(2, "little") + rb(rng, total - 16 - 6)
+    return body + hashlib.md5(body + simdev.SIGN_KEY).digest()
+
+
 def v3_wrap(key, ptype, ctr, plaintext_after_ctr, size=None, pad=None, ct_override=None, magic=0x20):
     """a V3 packet with a VALID tag; fields can be forced to inconsistent values"""
     data = plaintext_after_ctr
@@ -54,6 +62,11 @@ def adversarial_replies(rng, version, key_for_conn):
     v2.append(("signed_good", signed_v2(rng, good_ct)))
     for lf in (0, 5, 6, 39, 40, 55, 56, 57, 0xFFFF):
         v2.append(("length_field_%d" % lf, signed_v2(rng, good_ct, length_field=lf)))
+    for total in range(22, 60):
+        v2.append(("signed_short_%d" % total, signed_short(rng, total)))
+    for total in (22, 30, 39, 40, 41, 55, 56):
+        v2.append(("signed_short_%d_lf_%d" % (total, 6), signed_short(rng, total, length_field=6)))
+        v2.append(("signed_short_%d_lf_%d" % (total, total - 1), signed_short(rng, total, length_field=total - 1)))
     v2.append(("wrong_marker", signed_v2(rng, good_ct, marker=b"\x5a\x5b")))
     v2.append(("raw_frame", STATE))
     for n in (0, 1, 5, 6, 7, 40, 56):
